@@ -32,11 +32,20 @@ def names(draw):
 def histories(draw, big):
     nnames = draw(st.integers(1, 6))
     pool = draw(st.lists(names(), min_size=nnames, max_size=nnames, unique=True))
+    # large logs: record lines of 1-4 KB, enough of them to pass 256 KiB (the reader refills its buffer there and has to
+    # carry a partial line over); the lengths differ so that the boundary falls at varying places inside a line
+    long_ = draw(st.integers(0, 3 if big else 9)) == 0
+    if long_:
+        pool = [n + b"L" * draw(st.integers(700, 3500)) for n in pool]
     ops = []
     nsess = draw(st.integers(1, 4))
     for s in range(nsess):
         dead = draw(st.lists(st.integers(0, nnames - 1), max_size=2, unique=True))
         ops.append(dict(op='open', dead=dead))
+        if long_ and s == 0:
+            per = sum(len(n) + 60 for n in pool)
+            ops.append(dict(op='record', outs=list(range(nnames)), cmd=0, start=1, end=2, mtime=draw(st.integers(1, 10 ** 9)),
+                            rep=max(2, (draw(st.integers(270000, 560000)) + per - 1) // per)))
         for _ in range(draw(st.integers(0, 6))):
             k = draw(st.integers(0, 9))
             if k <= 6:
